@@ -283,7 +283,11 @@ impl Model for GroupHist {
             }
         }
         if !out.ok() {
-            // a refusal is never a violation (for a repeated member it is what the code promises)
+            // refusing a repeated member is what the code promises and never a violation; any other
+            // initial list must instantiate, or the configuration would silently explore nothing
+            if !dup {
+                v.push(Violation::new("cfg.instantiate_failed", out.err()));
+            }
             return (GState { w, r: Hist::default(), dead: true }, v);
         }
         if dup {
